@@ -403,6 +403,22 @@ def run_program(lines, cls=Impl):
         im.close()
 
 
+def run_program_fresh(lines, module=None, cls='Impl'):
+    """the same program in a FRESH interpreter: nothing of the library has run before its first line (state that is set up
+    lazily by the first tensor construction, the first op, the first context ... is set up by the program itself)"""
+    import subprocess, sys, json, os
+    here = os.path.dirname(os.path.abspath(__file__))
+    code = ("import sys, json; sys.path.insert(0, %r); import tprog\n"
+            "mod = __import__(%r, fromlist=['x']) if %r else tprog\n"
+            "lines = json.load(sys.stdin)\n"
+            "print('@@RESULT@@' + json.dumps(tprog.run_program(lines, getattr(mod, %r))))\n") % (here, module or '', module or '', cls)
+    p = subprocess.run([sys.executable, '-c', code], input=json.dumps(lines), capture_output=True, text=True, timeout=300)
+    for l in p.stdout.split('\n'):
+        if l.startswith('@@RESULT@@'):
+            return json.loads(l[len('@@RESULT@@'):])
+    raise RuntimeError(f'fresh interpreter failed: {p.stderr[-500:]}')
+
+
 # ---------------------------------------------------------------------------- comparison
 def close_arr(m, i, rtol=1e-9):
     if m == i: return True
